@@ -80,7 +80,7 @@ def _parse_terse(out, names):
 
 
 def run_kani(crate_dir, harnesses, target_dir, jobs=8, harness_timeout=1200, total_timeout=None,
-             mem_gb=14, extra=None, package=None, env=None):
+             mem_gb=32, extra=None, package=None, env=None):
     """Run `cargo kani` once for the given harness names (exact, fully qualified or suffix).
     Returns dict name -> HarnessResult (keyed by the names given)."""
     os.makedirs(target_dir, exist_ok=True)
@@ -123,7 +123,7 @@ def run_kani(crate_dir, harnesses, target_dir, jobs=8, harness_timeout=1200, tot
     return res, wall, out
 
 
-def concrete_values(crate_dir, harness, target_dir, package=None, timeout=1800, env=None, mem_gb=14):
+def concrete_values(crate_dir, harness, target_dir, package=None, timeout=1800, env=None, mem_gb=32):
     """Re-run one failing harness with concrete playback; return (test_source, list of byte vectors)."""
     cmd = ["cargo", "kani", "--target-dir", target_dir] + KANI_FLAGS + \
           ["-Z", "concrete-playback", "--concrete-playback=print", "--exact", "--harness", harness]
